@@ -654,7 +654,7 @@ func (rc RetCase) Cmps() []Cmp {
 	var out []Cmp
 	for _, c := range rc.Facts {
 		if m, ok := AsCmp(c); ok {
-			out = append(out, m)
+			out = withMirror(out, m)
 			out = append(out, deriveCmps(m, 0)...)
 		}
 	}
